@@ -94,7 +94,7 @@ for _fn in ("read", "readline"):
     contract(
         R_ + "QueueReader." + _fn, "C06", params=dict(self=QR, size=Int), externals=CAT_EXT, returns=Bytes, axioms=CAT_AXIOMS,
         locals={"buf": Bytes, "line": Bytes, "nl": Bytes},
-        loops={"while#1": dict(invariant={"the-buffer-is-exactly-what-was-dequeued-so-far": "buf == cat(log('get'))"})},
+        loops={"while#1": dict(invariant={"the-buffer-is-exactly-what-was-dequeued-so-far": "buf == cat(log('get'))"}, havoc_only=[])},
         ensures={"returns-exactly-the-bytes-it-dequeued-in-order": "result == cat(log('get'))"},
         emits=["get", "observe"],
         from_property="deliver every byte ... once and in order (read / readline hand out the concatenation of the chunks they took from the queue)",
@@ -103,7 +103,7 @@ contract(
     R_ + "QueueReader.iterqueue", "C06", params=dict(self=QR), externals=dict(EXT, **{"<yield>": Ext(event="yield", log_type=Bytes, note="type of the yield log")}),
     hooks={"yield": _yield_log},
     locals={"chunk": Bytes},
-    loops={"while#1": dict(invariant={"every-dequeued-chunk-was-yielded-in-order": "log('yield') == log('get')"})},
+    loops={"while#1": dict(invariant={"every-dequeued-chunk-was-yielded-in-order": "log('yield') == log('get')"}, havoc_only=[])},
     ensures={"yields-exactly-the-dequeued-chunks-in-order": "log('yield') == log('get')"},
     emits=["get", "observe", "yield"],
     from_property="deliver every byte ... once and in order ($() / @$() drain the reader through iterqueue)",
